@@ -59,8 +59,8 @@ type cgScenario struct {
 	// "topic/part" -> how many ListOffsets answers for that partition fail (NOT_LEADER): two make one
 	// offset lookup fail, so the first attempt to start a claim on it fails
 	ClaimStartFails map[string]int
-	Oldest   bool
-	Auto     bool
+	Oldest          bool
+	Auto            bool
 }
 
 func (sc *cgScenario) describe() map[string]interface{} {
@@ -91,19 +91,19 @@ type cgEv struct {
 
 type cgResult struct {
 	listOffsetsFailed int64 // ListOffsets answers turned into NOT_LEADER (ClaimStartFails)
-	sc            *cgScenario
-	newErr        error
-	events        []cgEv
-	group         []sarama.VSimGroupEvent
-	fetched       []sarama.VSimFetched
-	hooks         []hookEv
-	stuck         bool
-	stuckWho      []string
-	inconcl       string
-	logEnd        int64
-	closeLivelock bool
-	faultsUsed    map[string]int
-	stored        map[string]int64
+	sc                *cgScenario
+	newErr            error
+	events            []cgEv
+	group             []sarama.VSimGroupEvent
+	fetched           []sarama.VSimFetched
+	hooks             []hookEv
+	stuck             bool
+	stuckWho          []string
+	inconcl           string
+	logEnd            int64
+	closeLivelock     bool
+	faultsUsed        map[string]int
+	stored            map[string]int64
 }
 
 type offMap struct {
@@ -947,7 +947,7 @@ func judgeGroup(res *cgResult) proto.Rec {
 	// ---- identities at the coordinator
 	issued := map[string]map[int32]bool{} // member id -> generations issued
 	fenced := map[string]int64{}          // client -> seq of the fencing answer
-	holds := map[string]string{} // client -> member id the coordinator issued and has not taken back
+	holds := map[string]string{}          // client -> member id the coordinator issued and has not taken back
 	for _, g := range res.group {
 		rec.Obs["coord:"+g.Kind]++
 		// a member keeps the identity it was issued until the coordinator fences it
